@@ -29,13 +29,22 @@ Fixpoint m_get (k : N) (m : smap) : option pscs :=
   | [] => None
   | (k', v) :: r => if (k =? k')%N then Some v else m_get k r
   end.
-Fixpoint m_set (k : N) (v : pscs) (m : smap) : smap :=
+(* map assignment: replace the entry if the key is present, else insert it
+   before the first larger key (dumps of the Go map are sorted by key) *)
+Fixpoint m_replace (k : N) (v : pscs) (m : smap) : smap :=
+  match m with
+  | [] => []
+  | (k', v') :: r => if (k =? k')%N then (k, v) :: r else (k', v') :: m_replace k v r
+  end.
+Fixpoint m_insert (k : N) (v : pscs) (m : smap) : smap :=
   match m with
   | [] => [(k, v)]
-  | (k', v') :: r =>
-    if (k =? k')%N then (k, v) :: r
-    else if (k <? k')%N then (k, v) :: m
-    else (k', v') :: m_set k v r
+  | (k', v') :: r => if (k <? k')%N then (k, v) :: m else (k', v') :: m_insert k v r
+  end.
+Definition m_set (k : N) (v : pscs) (m : smap) : smap :=
+  match m_get k m with
+  | Some _ => m_replace k v m
+  | None => m_insert k v m
   end.
 Definition empty_pscs := mkPscs [] 0%Q.
 Definition m_get_d (k : N) (m : smap) : pscs :=
